@@ -215,8 +215,14 @@ impl Texture {
         height: usize,
         decode_func: DecodeFunction,
     ) -> Option<Vec<u8>> {
-        // Check that the payload covers the image before allocating for it
-        let mut image: Vec<u32> = vec![0; width.checked_mul(height)?];
+        // Check that the payload can cover the image before allocating for it: the densest block format (BC1) spends
+        // half a byte per pixel, the decoders check the exact size
+        let pixels = width.checked_mul(height)?;
+        if src.len().checked_mul(2)? < pixels {
+            return None;
+        }
+
+        let mut image: Vec<u32> = vec![0; pixels];
         decode_func(src, width, height, &mut image).ok()?;
 
         Some(
